@@ -315,8 +315,12 @@ CLAIMS: dict[str, tuple[str, str, str, str]] = {
         "children): every top-level token has a type of the enabled block rules' vocabulary and every token below an inline token — at every depth of nested "
         "image descriptions — a type of the enabled inline rules' vocabulary (no image without the image rule, no link_open without link and autolink, no "
         "html_inline without the rule and the html option, ...), via full_types: the deep token engine (C05d imgChain_addsD) for any predicate on type names. "
+        "conservative_extension (Props/C10h.lean): two configurations of the eleven-rule inline sub-parser that differ only in which of newline, escape, "
+        "backticks, link, image, autolink, html_inline, entity are enabled yield the same token stream on every source holding none of the trigger characters "
+        "of the rules they differ in — through label walks, link texts and image descriptions at every depth (a relation between rule chains, Ext, carried "
+        "through every engine function under the two-mode contract). "
         "MISSING: provenance for the remaining rules (table, reference; linkify) and the "
-        "conservative-extension clause need per-rule models: decided by the oracle (token kinds under random rule subsets; "
+        "conservative-extension clause for the block rules and the second-chain rules are decided by the oracle (token kinds under random rule subsets; "
         "table/strikethrough on vs off on trigger-free inputs; definition options erase to the plain parse, env and HTML equal; "
         "switches issued while a render is in flight). Tie: Ruler/facade/options model of C11/C12 + route requests.",
         NOTE,
